@@ -107,6 +107,7 @@ class Run:
         self.known_state = {}       # id(conn) -> "rw" the model currently believes
         self.known_err = set()      # id(conn) whose error flag the model knows about
         self.predicted = set()      # id(conn) whose state the model predicted in the current step
+        self.opened_to = {}         # id(conn) -> (address, tls, via) the socket was really opened for (harness knowledge)
         self.n_sent, self.n_answered = {}, {}
         self.oracle_fail = []
 
@@ -228,7 +229,9 @@ class Run:
             if self.h2: ctx.client.alpn = b"h2"
             self.lay = lay = http.HttpLayer(ctx, hmode)
             self.w = w = SnoopWorld(lay, ctx, on_hook=self.on_hook, on_connect=lambda w_, c: "defer")
-            if mode == "reverse_open": w.add_open_server(ctx.server)
+            if mode == "reverse_open":
+                w.add_open_server(ctx.server)
+                self.opened_to[id(ctx.server)] = (list(ctx.server.address), bool(ctx.server.tls), via_idx(ctx.server.via))
             if mode == "reverse_err": ctx.server.error = "eager connect failed (scripted)"
             w.start()
             cs = lay.context.server
@@ -280,7 +283,7 @@ class Run:
         if c is not None:
             rec.update(addr=list(c.address) if c.address else None, tls=bool(c.tls), via=via_idx(c.via),
                        transport=c.transport_protocol, open=c.state is ConnectionState.OPEN, error=bool(c.error),
-                       failed_before=id(c) in self.failed_conns)
+                       failed_before=id(c) in self.failed_conns, opened_to=self.opened_to.get(id(c)))
             self.n_sent[id(c)] = self.n_sent.get(id(c), 0) + 1
         self.routed.append(rec)
         self.step_out.append(f"r{rid}>{cid}")
@@ -356,6 +359,8 @@ class Run:
         if fate != "ok": self.failed_conns.add(id(logical))
         else: self.known_state[id(logical)] = "11"
         if line.endswith("fail 1"): self.known_err.add(id(logical))
+        # where this socket (and the tunnel / TLS session on it) really leads: what the connection was created for
+        self.opened_to[id(logical)] = (list(logical.address) if logical.address else None, bool(logical.tls), via_idx(logical.via))
         lab = w.label(phys)
         seen = len(w.sent_to(lab))
         w.finish_connect(cmd, "connection refused (scripted)" if fate == "tcp_fail" else None)
@@ -416,14 +421,27 @@ class Run:
                 return      # transparent-mode streams assert that context.server has an address: not a pool matter
             old = target.address
             self.model_lines.append(f"poke {tname} addr " + ("- -" if new is None else f"{s['v'][0]} {s['v'][1]}"))
-            try: target.address = new; raised = False
+            try:
+                if s.get("how") == "set_state":       # restoring a state into the live object (Flow.set_state / revert)
+                    st = target.get_state(); st["address"] = Server(address=new).get_state()["address"]
+                    target.set_state(st)
+                else:
+                    target.address = new
+                raised = False
             except RuntimeError: raised = True
             now = target.address
         else:
             new = None if s["v"] is None else PROXIES[s["v"]]
             old = target.via
             self.model_lines.append(f"poke {tname} via " + via_idx(new))
-            try: target.via = new; raised = False
+            try:
+                if s.get("how") == "set_state":
+                    tmp = Server(address=None); tmp.via = new
+                    st = target.get_state(); st["via"] = tmp.get_state()["via"]
+                    target.set_state(st)
+                else:
+                    target.via = new
+                raised = False
             except RuntimeError: raised = True
             now = target.via
         self.step_out.append("raised" if raised else "set")
@@ -511,8 +529,18 @@ class Check(PropertyCheck):
                             grid.append({"mode": mode, "client": client, "fates": ["ok", fate],
                                          "steps": [R(1), r2, R(3, *second), {"k": "connect", "i": 0}, {"k": "connect", "i": 0},
                                                    {"k": "connect", "i": 0}, R(4), {"k": "connect", "i": 0}]})
+        # re-label an established connection (assignment / restored state), then ask for the new label
+        for mode in ("regular", "upstream", "reverse_open"):
+            for client in ("h1", "h2"):
+                for how in ("setattr", "set_state"):
+                    for f, v, second in (("addr", [1, 0], (1, 0, 0)), ("via", 0, (0, 0, 0)), ("via", 1, (0, 0, 0)), ("via", None, (0, 0, 0))):
+                        rw = [{"at": "request", "via": ["replace", v]}] if f == "via" else None
+                        grid.append({"mode": mode, "client": client, "fates": ["ok"], "steps": [
+                            R(1), {"k": "connect", "i": 0}, {"k": "respond", "c": 0},
+                            {"k": "poke", "c": 0, "f": f, "v": v, "how": how},
+                            R(2, *second, rw=rw), {"k": "connect", "i": 0}]})
         rng.shuffle(grid)
-        if tier == "quick": grid = grid[:700]
+        if tier == "quick": grid = grid[:800]
         yield from grid
         if tier == "thorough":
             yield from self.exhaustive(tier)
@@ -576,11 +604,12 @@ class Check(PropertyCheck):
             elif r < 0.9:
                 steps.append({"k": "close", "c": rng.randint(0, 5)})
             else:
+                how = rng.pick(["setattr", "set_state"])
                 if rng.chance(0.5):
-                    steps.append({"k": "poke", "c": rng.pick(["ctx", 0, 1, 2]), "f": "addr",
+                    steps.append({"k": "poke", "c": rng.pick(["ctx", 0, 1, 2]), "f": "addr", "how": how,
                                   "v": rng.pick([None, [rng.randint(0, 2), rng.randint(0, 1)], list(dest()[:2])])})
                 else:
-                    steps.append({"k": "poke", "c": rng.pick(["ctx", 0, 1, 2]), "f": "via", "v": rng.pick([None, 0, 1])})
+                    steps.append({"k": "poke", "c": rng.pick(["ctx", 0, 1, 2]), "f": "via", "how": how, "v": rng.pick([None, 0, 1])})
         return {"mode": mode, "client": client, "fates": fates, "steps": steps}
 
     # ---- implementation ---------------------------------------------------------------------------------------
@@ -606,6 +635,11 @@ class Check(PropertyCheck):
             got = {k: r[k] for k in want}
             if got != want:
                 fails.append(f"misrouted: request {r['rid']} for {want} written to connection {r['cid']} with {got}")
+            # the same statement against what the harness itself knows about the socket (not the connection object's
+            # current label, which is the implementation's own bookkeeping)
+            ot = r.get("opened_to")
+            if ot is not None and ot != [want["addr"], want["tls"], want["via"]] and tuple(ot) != (want["addr"], want["tls"], want["via"]):
+                fails.append(f"misrouted (socket): request {r['rid']} for {want} written to a connection that was opened for {ot}")
             # "a connection that failed is not reused for later requests"
             if r["error"] or r["failed_before"]:
                 fails.append(f"failed connection {r['cid']} reused for request {r['rid']}")
